@@ -55,8 +55,19 @@ func GenVersion(t *rapid.T) []byte {
 func GenFrame(t *rapid.T, maxPayload int) FrameJ {
 	f := FrameJ{Kind: Kinds[gen.Uniform(t, len(Kinds), "kind")]}
 	n := payloadLens[gen.Uniform(t, len(payloadLens), "plen")]
-	if gen.Chance(t, 1, 3, "anylen") {
+	switch gen.Uniform(t, 6, "lenclass") {
+	case 0, 1:
 		n = gen.Uniform(t, 300, "plen2")
+	case 2:
+		n = gen.Uniform(t, 5000, "plen4")
+	case 3, 4:
+		// around every power of two, counted for the body alone and for header+body (2^k-32),
+		// and a few bytes less for the protobuf tag/length prefix of wrapped payloads
+		k := 5 + gen.Uniform(t, 10, "pow")
+		n = 1<<uint(k) - 32*gen.Uniform(t, 2, "hdr") - gen.Uniform(t, 2, "tag")*(2+k/7) + gen.Uniform(t, 7, "d") - 3
+		if n < 0 {
+			n = 0
+		}
 	}
 	if vk.Thorough() && gen.Chance(t, 1, 10, "huge") {
 		n = 16384 + gen.Uniform(t, 65536-16384+1, "plen3")
